@@ -14,6 +14,7 @@
 #include <grp.h>
 #include <dlfcn.h>
 #include <pthread.h>
+#include <fcntl.h>
 #include <sched.h>
 #include <sys/types.h>
 #include <sys/stat.h>
@@ -95,3 +96,9 @@ W int v_fileno(FILE *f) { return fileno(f); }
 W int v_ftruncate(int fd, off_t l) { return ftruncate(fd, l); }
 W int v_fsync(int fd) { return fsync(fd); }
 W int v_sched_yield(void) { return sched_yield(); }
+W int v_open(const char *p, int fl, ...) { va_list ap; va_start(ap, fl); int m = va_arg(ap, int); va_end(ap); return open(p, fl, m); }
+W ssize_t v_write(int fd, const void *b, size_t n) { return write(fd, b, n); }
+W int v_fputs(const char *s, FILE *f) { return fputs(s, f); }
+W int v_fputc(int c, FILE *f) { return fputc(c, f); }
+W int v_puts(const char *s) { return puts(s); }
+W size_t v_fwrite(const void *p, size_t a, size_t b, FILE *f) { return fwrite(p, a, b, f); }
